@@ -245,11 +245,11 @@ class FnAnalysis:
         if k == 'unop' and e.name == 'Not':
             return ty_range(e.ty)
         if k == 'unop' and e.name == 'PtrMetadata' and e.args:
-            return self.length(e.args[0], block, depth + 1)
+            return self.alloc_cap(self.length(e.args[0], block, depth + 1), e.args[0])
         if k == 'call':
             ln = last(e.name)
             if ln == 'len' and e.args:
-                return self.length(e.args[0], block, depth + 1)
+                return self.alloc_cap(self.length(e.args[0], block, depth + 1), e.args[0])
             if ln in ('wrapping_add', 'wrapping_sub', 'wrapping_mul', 'rotate_left', 'rotate_right', 'from_be_bytes', 'from_le_bytes'):
                 m = re.search(r'<impl (\w+)>', e.name or '')
                 return ty_range(m.group(1)) if m else (-INF, INF)
@@ -275,6 +275,15 @@ class FnAnalysis:
         if k in ('local', 'param'):
             return ty_range(e.ty)
         return ty_range(e.ty)
+
+    def alloc_cap(self, r, coll):
+        """language guarantee: a slice, array or Vec of a sized non-zero-sized element type occupies at most isize::MAX
+        bytes, so its length is at most isize::MAX / size_of(element)"""
+        m = re.search(r'(?:\[|Vec<)\s*(u8|i8|u16|i16|u32|i32|u64|i64|usize|isize|u128|i128|bool)\s*(?:[;\]>,])', strip(coll).ty or '')
+        if not m:
+            return r
+        sz = {'u8': 1, 'i8': 1, 'bool': 1, 'u16': 2, 'i16': 2, 'u32': 4, 'i32': 4, 'u64': 8, 'i64': 8, 'usize': 8, 'isize': 8, 'u128': 16, 'i128': 16}[m.group(1)]
+        return (r[0], min(r[1], ((1 << 63) - 1) // sz))
 
     def iter_source(self, it):
         """decode an iterator expression: (kind, collection expr, parameter) with kind in range / slice / chunks_exact /
